@@ -9,6 +9,7 @@ import P2.Model.LogStore
 import P2.Lemmas.Header
 import P2.Props.C02
 import P2.Props.C04
+import P2.Extracted.C01
 
 namespace P2.C01
 open P2.Header P2.LogStore P2.HeaderLemmas
@@ -128,6 +129,32 @@ theorem c01_insert_only_if_valid {E : Type} (c : ExtCodec E) (tbl : SigTable) (s
     cases hvv : validateOperation c tbl o.op with
     | ok u => cases u; exact absurd hvv hv
     | error e => simp
+
+/-! ### Tie to the source text -/
+
+/-- numbering of `OperationError` used by the regenerated definition -/
+def errCode : OpErr → Nat
+  | .unsupportedVersion => 0 | .missingSignature => 1 | .signatureMismatch => 2 | .seqNumMismatch => 3
+  | .inconsistentPayloadInfo => 4 | .missingPayloadHash => 5 | .payloadMismatch => 6 | .tooManyAuthors => 7
+  | .seqNumNonIncremental => 8 | .backlinkMissing => 9 | .backlinkMismatch => 10
+
+/-- The model's `validateHeader` is, check for check and in the same order, the Lean term that
+    `rs2lean` regenerates from the current body of `validate_header` in
+    p2panda-core/src/operation.rs on every run (dropping, reordering or changing a check there
+    breaks this proof before any input is generated). -/
+theorem c01_validate_header_is_source {E : Type} (c : ExtCodec E) (tbl : SigTable) (h : Header E) :
+    (match validateHeader c tbl h with
+      | .ok () => (.ok () : Except Nat Unit)
+      | .error e => .error (errCode e))
+    = P2.Extracted.C01.validateHeaderT (verify c tbl h) h.version h.payloadSize h.seq
+        h.payloadHash.isSome h.backlink.isSome := by
+  unfold validateHeader P2.Extracted.C01.validateHeaderT
+  cases hv : verify c tbl h <;> simp only [Bool.not_false, Bool.not_true, if_true, Bool.false_eq_true, if_false, not_true_eq_false, not_false_eq_true, errCode]
+  by_cases h1 : h.version = 1
+  · cases hp : h.payloadHash <;> cases hb : h.backlink <;>
+      by_cases hz : h.payloadSize = 0 <;> by_cases hq : h.seq = 0 <;>
+      simp [h1, hz, hq, errCode, Nat.pos_of_ne_zero] <;> omega
+  · simp [h1, errCode]
 
 /-! ### Tampering -/
 
